@@ -258,7 +258,26 @@ func report(o *Options, p *Program, v *Verifier, keys []string, obls []*Obligati
 	return 0
 }
 
-var propNotes = map[string]string{}
+var propNotes = map[string]string{
+	"C01": "termination of interpreter-level loops (for/loop/forall over unbounded programs) and Go stack exhaustion are not contract-expressible here (only loop invariants, no ghost fuel); panics inside trusted stdlib callees; memory exhaustion by many moderate allocations; obligations listed under not_claimed_obligations.",
+	"C02": "operators under functional contract: pop dup exch count index add sub mul abs (plus copy/putinterval overflow safety under C01); composite access, dictionary, comparison, conversion and registry operators have only safety + intpWF contracts; mul overflow promotion is claimed for multiplicands -1, 0, 1 only; float arithmetic treated as real arithmetic.",
+	"C03": "what a procedure body does is abstract (executeOne used through its contract); iteration counts, forall operand order, bind, name-lookup order and ifelse branch selection are not under functional contract.",
+	"C04": "clauses hold while at least four bytes are in memory (composition with refill at buffer boundaries is not proved); that the string under construction never aliases the scanner buffers is an antecedent, not proved; ScanToken dispatch, numbers, names, ASCII85, comments/DSC, String.PS / Name.PS round trips not under contract.",
+	"C05": "transparency of whole programs is the modular consequence of the byte-layer contracts, not a replayed equality; hex de-armouring loop of readByteEexec, readstring byte-exactness, the regurgitate path of BeginEexec and which mode value is stored after detection are not under functional contract.",
+	"C06": "covered: charstring decryption, number decoding, path/hint/side-bearing/div/setcurrentpoint/closepath/flex-move steps of decodeCharString. Not covered: callsubr/return/callothersubr argument handling, flex end curves, seac assembly, dictionary extraction by type1.Read through the interpreter, defaults of Private values, creation date parsing.",
+	"C07": "endcodespacerange entries, usecmap, rejection of low > high in range mappings and ReadCMap's choice among several CMaps (sorted keys: see C17) are not under functional contract; sort.Slice and bytes.Compare are trusted.",
+	"C08": "covered: charstring obfuscation, eexec writer cipher and buffering invariant, stem hint encoding, number formats (C20). Not covered: template text, PFB framing lengths, Length1/2/3, the lead-byte search termination, writeEncoding / isStandardEncoding (known question: .notdef at a standard code), hex writer line structure.",
+	"C10": "'writing succeeds without error' depends on text/template and Name.PS rejecting non-regular names (a glyph named << is accepted by the reader and refused by the writer: not claimed); re-read equalities go through text/template and the interpreter and are not expressible. Covered: no panic in any writer function for fonts satisfying fontWF, type1.Read establishes fontWF, coordinates within 1/214 (shared with C20).",
+	"C11": "'never counting past N+1' on the error-handler path and the two-run equality 'same state as with no budget' are not claimed; Go stack depth is not a value a contract can see; size limits of array/string/dict are covered by C01's make obligations only.",
+	"C12": "no ghost input tape: equality of complete results under two delivery schedules is not stated; covered is the refill contract every schedule must go through. Split-Execute equivalence, seekable vs non-seekable peek in type1.Read, afm.Read (bufio.Scanner, trusted) not under contract.",
+	"C13": "truncation-never-yields-partial-result (depends on definefont being last in the file) and the upper reader layers (ScanToken, Execute, type1.Read, afm.Read) are not under the fault contract; fmt.Fprintf and text/template are trusted to perform their output through w.Write and to return the first write error.",
+	"C14": "(*pfbReader).Read is proved safe with its representation invariant and byte counts; the full functional contract 'output is the hex/verbatim rendering of the segments' (ghost output tape) is not stated; hexEncode is proved exactly.",
+	"C16": "table contents (glyph list, AGLFN, Zapf Dingbats, compat expansions) are data; decision order of the lookups, '.'-suffix and '_' splitting (strings package), final scalar-range test of the u form, FromUnicode and the name/rune round trip are not under contract.",
+	"C17": "encodeCharstrings' map loop is not claimed (inner loops in the body; only the own-key frame is proved); text/template's sorted map iteration, sort.Slice / slices.Sort producing a function of the key set, absence of time/rand/address dependence (not scanned) are trusted; bForall over a dictionary is order dependent by PLRM and outside the anchored files.",
+	"C18": "the data-race half (all interleavings) is outside a sequential verifier; the lock discipline of names.glyphMap and a module-wide scan that no package-level variable is written after init are not under contract (only the effectively-constant analysis of the globals actually read by verified functions).",
+	"C19": "GlyphList: length and sort keys are proved, the final order (trusted sort.Slice with the verified comparator) and duplicate-freeness are not; BuiltinEncoding, FontBBox union semantics, WidthsMapPDF agreement with GlyphWidthPDF and the matrix arithmetic of the PDF variants (treated as real arithmetic) are not under functional contract.",
+	"C20": "float64 arithmetic on coordinates is treated as exact real arithmetic (assumption 'machine arithmetic treated as mathematical'); bounds are claimed for |x| <= 10^6; that posX/posY equal the byte-level decoding of the emitted numbers rests on appendNumber's contract (value of the appended token) and is not re-parsed from the buffer inside encodeCharString.",
+}
 
 func shortName(s string) string {
 	s = san(s)
